@@ -150,14 +150,19 @@ pub fn contexts(l: L, title: &str, n: usize) -> Vec<(Vec<Rec>, usize)> {
     if n >= 5 {
         // a big crowd: 119 better-rated records that all share the target's first word, limit exactly |store| = 120
         let first = title.split(|c: char| c == ' ' || c == '-').next().unwrap_or(title).to_string();
-        let mut recs: Vec<Rec> = Vec::new();
-        for i in 0..119 {
-            if i == 60 {
-                recs.push(rec(TARGET_ID, title, 1));
+        // ... with the target added first, in the middle and last (which tied candidates survive a cut depends on position)
+        for pos in [0usize, 60, 119] {
+            let mut recs: Vec<Rec> = Vec::new();
+            for i in 0..=119 {
+                if i == pos {
+                    recs.push(rec(TARGET_ID, title, 1));
+                }
+                if i < 119 {
+                    recs.push(rec(1000 + i, &match i % 3 { 0 => format!("{} {} {}", first, unrelated, i), 1 => format!("{}{}", first, i), _ => format!("{} {}", i, first) }, 100 + i));
+                }
             }
-            recs.push(rec(1000 + i, &match i % 3 { 0 => format!("{} {} {}", first, unrelated, i), 1 => format!("{}{}", first, i), _ => format!("{} {}", i, first) }, 100 + i));
+            v.push((recs, 120));
         }
-        v.push((recs, 120));
     }
     if n >= 3 {
         // two word-less records first (they occupy positions but have no grams), then the target between distractors
